@@ -17,8 +17,10 @@ def run(ctx):
     core.build_repo(); core.build_sup()
     rng = ctx.rng
     n = 60 if ctx.quick else 700
+    table = [(m, k, en, d) for m in ('never', 'auto', 'always') for d in ('parfile', 'parblock')
+             for (k, en) in [('native', None), ('cloneok', None)] + [('unsup', e) for e in UNSUP] + [('hard', e) for e in ('EIO', 'EACCES')]]
     with core.Scratch('c15') as root:
-        for i in range(n):
+        for i in range(len(table) + n):
             c = br.Case()
             c.bsize = rng.choice([7, 4096, 1 << 20]); c.no_progress = rng.random() < 0.2
             nf = rng.choice([1, 2, 3])
@@ -27,14 +29,17 @@ def run(ctx):
             c.reflink = ['never', 'auto', 'always'][(i // 2) % 3]
             c.extra, c.tag = [], 'gen'
             kind = rng.choice(['native', 'unsup', 'hard', 'cloneok', 'cloneok'])
+            forced_en = None
+            if i < len(table):      # every mode x every kind of answer (each unsupported errno, hard errors) x driver, exhaustively
+                c.reflink, kind, forced_en, c.driver = table[i]
             victim = rng.choice(c.files)[0]
             if kind == 'native':
                 c.plan, ans = [], {f: 'EOPNOTSUPP' for f, _ in c.files}
             elif kind == 'unsup':
-                en = rng.choice(UNSUP); c.plan = [f'fail ioctl D/{victim} 1 {E.get(en, 26)}']
+                en = forced_en or rng.choice(UNSUP); c.plan = [f'fail ioctl D/{victim} 1 {E.get(en, 26)}']
                 ans = {f: 'EOPNOTSUPP' for f, _ in c.files}; ans[victim] = en
             elif kind == 'hard':
-                en = rng.choice(HARD); c.plan = [f'fail ioctl D/{victim} 1 {E[en]}']
+                en = forced_en or rng.choice(HARD); c.plan = [f'fail ioctl D/{victim} 1 {E[en]}']
                 ans = {f: 'EOPNOTSUPP' for f, _ in c.files}; ans[victim] = en
             else:
                 c.plan, ans = ['cloneok'], {f: 'ok' for f, _ in c.files}
@@ -96,6 +101,8 @@ def run(ctx):
                     issued = 'issued=true' in m
                     outcome = m.split()[-1]
                     seen = [t for t in toks if t.startswith('clone')]
+                    if r.cls != '0' and not seen and issued:
+                        continue    # the process exits on the first error: this file's copy was cut short before its clone request
                     good = (len(seen) == 1) == issued and (not seen or (seen[0] == 'clone:1') == (outcome == 'cloned'))
                     if outcome == 'copy' and r.cls == '0' and scen.data_bytes(dict((os.path.basename(d), dd) for _, d, dd in pairs)[os.path.basename(dst)])[0] > 0:
                         good = good and 'data' in toks
